@@ -8,6 +8,7 @@ import (
 	"os"
 	"regexp/syntax"
 	"strings"
+	"sync"
 
 	"golang.org/x/tools/go/ssa"
 )
@@ -781,6 +782,13 @@ func (l *Lin) axioms(s *system, t Term, at ssa.Instruction) {
 			for _, a := range v.Call.Args {
 				at2, off := l.Expr(a)
 				s.add(fact{at2, t, -off, "max"})
+			}
+		case t.K == TLen && callee != nil && l.P != nil && l.P.InScope(callee) && len(callee.Blocks) > 0 && callee.Signature.Results().Len() == 1:
+			// a helper of the scope whose every result has exactly the length of one of its int parameters
+			// (nextWindow(window, size) -> size), proved inside the helper
+			if pi, ok := l.lenResultIsParam(callee); ok && pi < len(v.Call.Args) {
+				a, off := l.Expr(v.Call.Args[pi])
+				eq(t, a, off, "callee proves len(result) == its parameter")
 			}
 		case callee != nil && callee.Name() == "Bytes" && MethodIs(callee, "bytes", "Buffer", "Bytes") && t.K == TLen:
 			if l.Summary != nil && (l.Summary.FrameEnd == l.Fn || l.Summary.FrameEndSteps[l.Fn]) {
@@ -1610,4 +1618,52 @@ func returnsMakeOfParam(fn *ssa.Function, idx int) (int, bool) {
 		n++
 	}
 	return pi, n > 0
+}
+
+var (
+	lenParamMu    sync.Mutex
+	lenParamCache = map[*ssa.Function]int{} // -1: no such parameter; -2: being computed
+)
+
+// lenResultIsParam: the single slice result of fn has, on every return, exactly the length of int parameter #i
+// (proved by E-LIN in fn's own system).
+func (l *Lin) lenResultIsParam(fn *ssa.Function) (int, bool) {
+	lenParamMu.Lock()
+	if v, ok := lenParamCache[fn]; ok {
+		lenParamMu.Unlock()
+		return v, v >= 0
+	}
+	lenParamCache[fn] = -2
+	lenParamMu.Unlock()
+	res := -1
+	if _, isSlice := fn.Signature.Results().At(0).Type().Underlying().(*types.Slice); isSlice {
+		sub := NewLin(l.P, fn, l.Mods, l.Summary)
+		for i, p := range fn.Params {
+			bt, ok := p.Type().Underlying().(*types.Basic)
+			if !ok || bt.Info()&types.IsInteger == 0 {
+				continue
+			}
+			all, n := true, 0
+			for _, b := range fn.Blocks {
+				ret, ok := b.Instrs[len(b.Instrs)-1].(*ssa.Return)
+				if !ok || b == fn.Recover {
+					continue
+				}
+				n++
+				pt := Term{K: TVal, V: p}
+				lt := sub.LenOf(ret.Results[0])
+				if !(sub.Prove(ret, lt, pt, 0) && sub.Prove(ret, pt, lt, 0)) {
+					all = false
+				}
+			}
+			if all && n > 0 {
+				res = i
+				break
+			}
+		}
+	}
+	lenParamMu.Lock()
+	lenParamCache[fn] = res
+	lenParamMu.Unlock()
+	return res, res >= 0
 }
